@@ -194,7 +194,7 @@ Proof.
   - intros x. apply exec1_store in X. cbn [hreq_key] in X. destruct X as [->|[->| ->]]; [auto|apply del_pt|].
     unfold upd. destruct (bytes_eqb x key); auto.
   - destruct o; inversion H; subst; [congruence|reflexivity].
-  - intros D P. unfold exec1 in X. rewrite D, P in X.
+  - clear K1. intros D P. unfold exec1 in X. rewrite D, P in X.
     destruct (std_exec (t_store t1) now (HDelete key)) as [s' r] eqn:E. inversion X; subst. cbn [t_store].
     replace s' with (fst (std_exec (t_store t1) now (HDelete key))) by (rewrite E; reflexivity). apply del_live.
 Qed.
@@ -255,13 +255,13 @@ Proof.
       * apply ack_run in H. destruct H as [-> ->]. destruct (Full t1 S1 eq_refl) as [A B].
         split; [exact A|]. split; [congruence|exact B].
       * destruct comp.
-        -- eapply Del; eauto.
+        -- apply (Del t1); [exact Pt|left; rewrite S1; reflexivity|exact H].
         -- apply ret_run in H. destruct H as (-> & -> & N). destruct (Full t1 S1 eq_refl) as [A B].
            split; [exact A|]. split; [reflexivity|exact B].
     + apply ack_run in H. destruct H as [-> ->]. destruct (Full t1 S1 eq_refl) as [A B].
       split; [exact A|]. split; [congruence|exact B].
     + destruct comp.
-      * eapply Del; eauto.
+      * apply (Del t1); [exact Pt|left; rewrite S1; reflexivity|exact H].
       * apply ret_run in H. destruct H as (-> & -> & N). destruct (Full t1 S1 eq_refl) as [A B].
         split; [exact A|]. split; [reflexivity|exact B].
   - (* an error status instead *)
@@ -274,7 +274,7 @@ Proof.
       * intros _ _. split; [apply A2|]. left. cbn [f1 t_store].
         rewrite (status_evicts _ _ _ _ D1 (Tol _ T)), K1, live_upd_same. reflexivity.
     + destruct comp.
-      * eapply Del; [exact Pt| |exact H]. right. cbn [t_dead t_seen]. split; [reflexivity|].
+      * apply (Del (mkTS (status_store l1 st (hreq_key q1)) false 1)); [exact Pt| |exact H]. right. cbn [t_dead t_seen]. split; [reflexivity|].
         intros Am. eapply amo_next; [exact Am| |]; [rewrite P1; discriminate|discriminate].
       * apply ret_run in H. destruct H as (-> & -> & N). split; [|split; [reflexivity|intros _ E; contradiction]].
         intros y. cbn [f1 t_store]. destruct (status_pt l1 st (hreq_key q1) y); auto.
@@ -282,7 +282,7 @@ Proof.
     destruct (is_setfamily q1) eqn:SF.
     + inversion H; subst. split; [|split; [reflexivity|intros _ E; discriminate E]].
       intros y. cbn [f1]. destruct S1 as [-> | ->]; auto.
-    + rewrite tol_eio in H. destruct comp; [rewrite (Comp eq_refl) in SF; discriminate SF|].
+    + rewrite tol_eio in H. destruct comp; [pose proof (Comp eq_refl) as CC; congruence|].
       apply ret_run in H. destruct H as (-> & -> & N). split; [|split; [reflexivity|intros _ E; contradiction]].
       intros y. cbn [f1]. destruct S1 as [-> | ->]; auto.
 Qed.
@@ -292,6 +292,7 @@ Lemma w1prog_walk st' cs e :
   run_f pl (w1prog q1 ack) (fs0 l1 l2) now = (st', cs, e) ->
   (e <> FRet None -> cs = []) /\ (e = FRet None -> t_store (f1 st') = fst (std_exec l1 now q1)).
 Proof.
+  clear W2 K1 Tol Comp.
   intros H. unfold w1prog, fs0 in H. cbn [run_f f1 f2] in H. rewrite (exec_f_wq _ _ _ _ W1) in H.
   destruct (exec1 (pl L1) (mkTS l1 false 0) now q1) as [t1 o1] eqn:X1.
   apply exec1_spec in X1; [|intros st; apply Herr|reflexivity|exact W1]. cbn [t_store t_seen] in X1.
@@ -326,7 +327,7 @@ Proof.
   destruct k; [congruence| |];
     destruct r as [m key d f ttl ? ?|fr key d ? ?|key ?|key ttl ?| | | | | | | |]; try discriminate Hw;
     try destruct m; cbn [wop wop1 std_exec]; unfold gb_set, gb_put, gb_cat, gb_delete, gb_touch;
-    open3 key; cbn [fst snd]; rewrite ?st_ok, ?st_exists, ?st_enoent, ?st_notstored; intros R; try discriminate R;
+    open3 key; rewrite ?E2; cbn [fst snd]; rewrite ?st_ok, ?st_exists, ?st_enoent, ?st_notstored; intros R; try discriminate R;
     try exact H;
     try (exfalso; rewrite (pinv_l2miss _ _ _ _ _ H E2) in E1; discriminate E1).
   all: try (apply pinv_upd; [exact H|]; first
@@ -337,6 +338,7 @@ Proof.
   all: try (apply pinv_upd2; [exact H|]; first
          [ apply rel_dead_some; [rewrite <- live_olive; exact E1|apply F]
          | apply rel_any_none; rewrite <- live_olive; exact E1 ]).
+  all: apply F.
 Qed.
 End Pair.
 
@@ -369,7 +371,7 @@ Lemma l1l2_gat_l1 pl now key ttl o l1 l2 st' cs e : sub_df now l1 l2 ->
 Proof.
   intros H0 H. unfold fs0 in H. cbn [l1l2 run_f exec_f f1 f2] in H.
   destruct (exec1 (pl L1) (mkTS l1 false 0) now (HGat key ttl o)) as [t1 o1] eqn:X1.
-  assert (S1 : sub_df now (t_store t1) l2) by (eapply exec1_nonew; [|exact H0|exact X1]; reflexivity).
+  assert (S1 : sub_df now (t_store t1) l2) by (eapply exec1_nonew; [| |exact X1]; [reflexivity|exact H0]).
   destruct o1 as [h1|]; [|inversion H; subst; exact S1].
   destruct h1 as [x| |rs er]; try (leaves H S1).
   destruct rs as [|g [|g' rs']]; try (leaves H S1).
@@ -407,7 +409,7 @@ Proof.
   destruct (g_miss g); try (leaves H H0).
   cbn [run_f exec_f f1 f2] in H.
   destruct (exec1 (pl L1) (mkTS l1 false 0) now (HTouch key ttl)) as [t1 o1] eqn:X1.
-  assert (S1 : sub_df now (t_store t1) l2) by (eapply exec1_nonew; [|exact H0|exact X1]; reflexivity).
+  assert (S1 : sub_df now (t_store t1) l2) by (eapply exec1_nonew; [| |exact X1]; [reflexivity|exact H0]).
   destruct o1 as [h1|]; [|inversion H; subst; exact S1].
   leaves H S1.
 Qed.
@@ -489,14 +491,15 @@ Proof.
     destruct (pinv_hit _ _ _ _ _ _ P E1) as (e2 & E2 & D & F & _). eauto.
 Qed.
 
-Lemma after_fault : forall pl k lck r now l1 l2 key e1,
-  amo pl -> errst pl -> sub_live now l1 l2 -> k <> KL1Only -> in_scope k r = true ->
+(* holds for any number of faults *)
+Lemma after_fault_any : forall pl k lck r now l1 l2 key e1,
+  errst pl -> sub_live now l1 l2 -> k <> KL1Only -> in_scope k r = true ->
   let '(st', _, _) := serve1_f pl (orca_cfg k lck) r (fs0 l1 l2) now in
   live now (t_store (f1 st')) key = Some e1 ->
   (exists e, live now l2 key = Some e /\ e_data e1 = e_data e /\ e_flags e1 = e_flags e) \/
   (exists e, live now (t_store (f2 st')) key = Some e /\ e_data e1 = e_data e /\ e_flags e1 = e_flags e).
 Proof.
-  intros pl k lck r now l1 l2 key e1 _ Er Hinv Kn Hs.
+  intros pl k lck r now l1 l2 key e1 Er Hinv Kn Hs.
   pose proof (serve1_f_inv pl (orca_cfg k lck) r (fs0 l1 l2) now) as S.
   destruct (serve1_f pl (orca_cfg k lck) r (fs0 l1 l2) now) as [[st' cs] c].
   destruct (run_f pl (orca_cfg k lck r) (fs0 l1 l2) now) as [[st0 cs0] e0] eqn:R.
@@ -513,3 +516,11 @@ Proof.
       destruct (pinv_hit _ _ _ _ _ _ P E1) as (e2 & E2 & D & F & _). rewrite A2. eauto.
   - left. apply (nowrite_l1 pl k lck r now l1 l2 st0 cs0 e0 Kn Hw Hs (sub_live_df _ _ _ Hinv) R). exact E1.
 Qed.
+
+Lemma after_fault : forall pl k lck r now l1 l2 key e1,
+  amo pl -> errst pl -> sub_live now l1 l2 -> k <> KL1Only -> in_scope k r = true ->
+  let '(st', _, _) := serve1_f pl (orca_cfg k lck) r (fs0 l1 l2) now in
+  live now (t_store (f1 st')) key = Some e1 ->
+  (exists e, live now l2 key = Some e /\ e_data e1 = e_data e /\ e_flags e1 = e_flags e) \/
+  (exists e, live now (t_store (f2 st')) key = Some e /\ e_data e1 = e_data e /\ e_flags e1 = e_flags e).
+Proof. intros pl k lck r now l1 l2 key e1 _. apply after_fault_any. Qed.
